@@ -130,46 +130,50 @@ def universe_consts(inch, outch, nids, threads, batch):
             "Threads": tla_set(range(1, threads + 1)), "MaxBatch": batch}
 
 
-def anomaly(ck, key, what, consts, mc_consts, overlay=None):
-    """Locate an API-level anomaly on the relaxed model (TLC dumps the schedule that reaches the
-    first state breaking the property), replay it on the real map, validate the recorded trace
-    against the relaxed model with the conformance invariants only: if the real map follows the
-    model into the bad state, the anomaly is real."""
-    r = ck.tlc(SPEC, "CircuitMapGen", "CircuitMapWitness.cfg", name="witness_" + key.split(":")[0],
-               mode="mc", constants=mc_consts, timeout=1500, workers=min(8, core.NCPU))
-    ck.cov["model_runs"].append(dict(what="witness search " + key, module="CircuitMapGen",
-                                     cfg="CircuitMapWitness.cfg", **r.summary()))
+def anomaly(ck, key, what, relaxed, cfg):
+    """Locate an API-level anomaly on the relaxed model (exhaustive BFS; TLC dumps the schedule that
+    reaches the first state breaking the property), replay it on the real map, validate the
+    recorded trace against the relaxed model: with the conformance invariants only it must be
+    accepted (the real map follows the model step by step), with the property invariants it must
+    be rejected (the real map is in the bad state).  Then the anomaly is real and is reported."""
+    tag = key.split(":")[0]
+    r = ck.tlc(SPEC, "CircuitMapGen", cfg, name="witness_" + tag, mode="mc", timeout=1500,
+               workers=min(8, core.NCPU))
+    ck.cov["model_runs"].append(dict(what="witness search " + key, module="CircuitMapGen", cfg=cfg, **r.summary()))
+    core.log("  [witness] %s: %d distinct states, %.0fs -> %s" % (tag, r.distinct, r.wall, r.violation or r.error or "none"))
     w = os.path.join(r.dir, "witness.ndjson")
     if r.error:
         raise Inconclusive("witness search failed: %s\n%s" % (r.error, r.out[-2000:]))
     if not r.violation or not os.path.exists(w):
         ck.notes.append("%s: the relaxed model has no counterexample within the bounds" % key)
         return
-    sched = ck.scratch("sched_" + key.split(":")[0])
+    sched = ck.scratch("sched_" + tag)
     shutil.copy(w, os.path.join(sched, "b_1.ndjson"))
     res, recs = execute(ck, "TestVerifC07CircuitMap",
                         dict(VERIF_SCHED=sched, VERIF_C07_IN="0,1", VERIF_C07_OUT="2", VERIF_C07_IDS=2),
-                        "exec_" + key.split(":")[0], overlay=overlay)
-    p = os.path.join(ck.out, "anomaly_%s.ndjson" % key.split(":")[0])
+                        "exec_" + tag)
+    p = os.path.join(ck.out, "anomaly_%s.ndjson" % tag)
     core.write_ndjson(p, recs)
-    # (1) conformance only: the real map does what the relaxed model says, step by step
-    c1 = dict(consts)
-    v1 = ck.validate(SPEC, "CircuitMapTrace", "CircuitMapTraceConform.cfg", p, constants=c1,
-                     name="val_conform_" + key.split(":")[0])
+    consts = dict(universe_consts([0, 1], [2], 2, 2, 2), Relaxed=relaxed)
+    v1 = ck.validate(SPEC, "CircuitMapTrace", "CircuitMapTraceConform.cfg", p, constants=consts,
+                     name="val_conform_" + tag)
     if not v1["ok"]:
+        # the real map does not do what the relaxed model says: an ordinary deviation
         ck.notes.append("%s: the real map does NOT follow the model's counterexample (%s at line %s)" % (
             key, v1["invariant"], v1["line"]))
-        validate(ck, recs, c1, "anomaly_dev_" + key.split(":")[0], what)
+        validate(ck, recs, consts, "anomaly_dev_" + tag, what)
         return
-    # (2) with the property invariants: the trace of the real map breaks the property
-    v2 = ck.validate(SPEC, "CircuitMapTrace", "CircuitMapTrace.cfg", p, constants=c1,
-                     name="val_prop_" + key.split(":")[0])
+    v2 = ck.validate(SPEC, "CircuitMapTrace", "CircuitMapTrace.cfg", p, constants=consts,
+                     name="val_prop_" + tag)
     if v2["ok"]:
-        raise Inconclusive("%s: witness schedule does not break the property on the trace" % key)
-    steps = " ; ".join("%s%s" % (x["a"], "" if x["ok"] else "(fail)") for x in core.read_ndjson(w))
-    ck.violation(key, "%s - real map follows the model's counterexample [%s]; %s broken at step %s" % (
-        what, steps, v2["invariant"], v2["line"]),
-        files={"trace.ndjson": p, "schedule.ndjson": w}, text=v2["cex"])
+        raise Inconclusive("%s: the witness schedule does not break the property on the recorded trace" % key)
+    steps = " ; ".join("%s%s%s" % (x["a"], "[t%d]" % x["t"] if x["t"] else "", "" if x["ok"] else "(write fails)")
+                       for x in core.read_ndjson(w))
+    ck.cov["traces_validated_against_impl"] += 1
+    ck.cov["evaluations"] += len(recs) - 1
+    ck.violation(key, "%s. The real circuit map follows the model's counterexample step by step [%s] and ends "
+                      "in the state that breaks %s (trace line %s)" % (what, steps, v2["invariant"], v2["line"]),
+                 files={"trace.ndjson": p, "schedule.ndjson": w}, text=v2["cex"])
 
 
 def run(ck):
@@ -178,7 +182,7 @@ def run(ck):
 
     # ---------------------------------------------------------------- (a) model checking
     small = universe_consts([0, 1], [2], 2, 2, 2)
-    base = dict(SwitchFaithful="TRUE", ClosePatient="TRUE", TrimMayFail="FALSE")
+    base = dict(Relaxed="{}")
     configs = [
         ("sequential deep", dict(small, Threads="{1}", MaxBatch=1, MaxOps=5, MaxCrash=1, MaxFail=1)),
         ("two threads", dict(small, MaxOps=3, MaxCrash=1, MaxFail=1)),
@@ -190,7 +194,8 @@ def run(ck):
             ("two threads", dict(small, MaxOps=4, MaxCrash=1, MaxFail=1)),
             ("three threads", dict(small, Threads="{1, 2, 3}", MaxBatch=1, MaxOps=3, MaxCrash=1, MaxFail=1)),
         ]
-    if os.environ.get("C07_DEV_SKIP_MC"):
+    skip = os.environ.get("C07_DEV_SKIP", "").split(",")   # development only: mc,gen,random
+    if "mc" in skip:
         configs = []
     for what, c in configs:
         ck.model_check(SPEC, "CircuitMapMC", "CircuitMapMC.cfg", "CircuitMap " + what,
@@ -198,23 +203,33 @@ def run(ck):
                        timeout=2400, workers=W)
     ck.cov["exhaustive"] = True
 
+    total = 0
     # ---------------------------------------------------------------- (b) generated schedules
     inch, outch, nids = [0, 1], [2, 3], 3
+    if "gen" not in skip:
+        total += generated(ck, thorough, base, inch, outch, nids)
+    # ---------------------------------------------------------------- (c) free-running seeded driver
+    if "random" not in skip:
+        total += seeded(ck, thorough, base)
+    ck.cov["traces_validated_against_impl"] += total
+    finish_sections(ck, thorough)
+
+
+def generated(ck, thorough, base, inch, outch, nids):
     gconsts = dict(universe_consts(inch, outch, nids, 2, 2), **base)
     num = 400 if thorough else 90
     files = ck.generate(SPEC, "CircuitMapGen", "CircuitMapGen.cfg", num, 80,
-                        constants=dict(gconsts, MaxLen=70, CloseAfter=30, CrashEvery=16), name="gen", timeout=1200)
+                        constants=dict(gconsts, MaxLen=70, CloseAfter=30, CrashEvery=16, Thin="TRUE"), name="gen", timeout=1200)
     sched = os.path.dirname(files[0])
     res, recs = execute(ck, "TestVerifC07CircuitMap",
                         dict(VERIF_SCHED=sched, VERIF_C07_IN="0,1", VERIF_C07_OUT="2,3", VERIF_C07_IDS=nids),
                         "exec_gen")
     tconsts = dict(gconsts)
-    total = 0
     ok_all = True
     for bi, batch in enumerate(core.split_batches(recs, is_reset, 6_000_000)):
         v = validate(ck, batch, tconsts, "val_gen_%d" % bi, "generated schedule")
         ok_all = ok_all and v["ok"]
-    total += sum(1 for r in recs if is_reset(r))
+    total = sum(1 for r in recs if is_reset(r))
     ck.cov["evaluations"] += len(recs) - total
     ck.cov["distinct_nontrivial"] += distinct_behaviours(recs)
     dead_driver_check(ck, ok_all)
@@ -223,8 +238,10 @@ def run(ck):
     ck.cov["samples"].append({"generated": [
         {k: r[k] for k in ("a", "t", "ins", "outs", "ok", "err", "adds", "drops", "fails")}
         for r in recs[1:9]]})
+    return total
 
-    # ---------------------------------------------------------------- (c) free-running seeded driver
+
+def seeded(ck, thorough, base):
     rin, rout, rids, rthr, rbatch = [0, 1, 4], [2, 3], 3, 3, 3
     runs, steps = (150, 120) if thorough else (40, 90)
     res2, recs2 = execute(ck, "TestVerifC07Random",
@@ -238,20 +255,29 @@ def run(ck):
         ok2 = ok2 and v["ok"]
     dead_driver_check(ck, ok2)
     n2 = sum(1 for r in recs2 if is_reset(r))
-    total += n2
     ck.cov["evaluations"] += len(recs2) - n2
     ck.cov["distinct_nontrivial"] += distinct_behaviours(recs2)
-    ck.cov["traces_validated_against_impl"] += total
+    return n2
 
+
+def finish_sections(ck, thorough):
     # ---------------------------------------------------------------- (e) API-level anomalies
     if thorough:
-        wuni = universe_consts([0, 1], [2], 2, 2, 2)
         anomaly(ck, "H9:commit-during-inflight-delete",
-                "CommitCircuits(k) while DeleteCircuits(k) is between its memory and its disk phase "
-                "(API level; the switch never issues this order)",
-                dict(wuni, SwitchFaithful="FALSE", ClosePatient="TRUE", TrimMayFail="FALSE"),
-                dict(wuni, SwitchFaithful="FALSE", ClosePatient="TRUE", TrimMayFail="FALSE",
-                     MaxOps=4, MaxCrash=1, MaxFail=1, MaxBatch=1))
+                "API level (the switch never issues this order): CommitCircuits(k) while DeleteCircuits(k) is "
+                "between its memory and its disk phase answers Adds for k a second time",
+                '{"A3"}', "CircuitMapWitnessH9.cfg")
+        anomaly(ck, "H10:closed-channel-purge-leaves-gap-before-uncommitted-keystone",
+                "a channel is fully closed while one of its circuits holds a keystone that never reached a "
+                "commitment: cleanClosedChannels purges that keystone, the trim scan of the outgoing channel stops "
+                "at the gap, and a younger uncommitted keystone of the same outgoing channel survives the restart "
+                "(the circuit stays open instead of being rolled back to half-open)",
+                '{"A6"}', "CircuitMapWitnessH10.cfg")
+        anomaly(ck, "H11:trim-write-failure-not-rolled-back",
+                "the transaction of a run-time TrimOpenCircuits fails: the error is returned but the keystones stay "
+                "cleared in memory and stay on disk; after the half-open circuit below is deleted and the node "
+                "restarts, the stale keystone above the gap is restored and not trimmed",
+                '{"TrimFail"}', "CircuitMapWitnessH11.cfg")
 
     ck.cov["rule"] = ("schedules = sequences of phase-level steps (memory phase / transaction ok|fail / rollback|apply "
                       "of Commit, Open, Trim, Delete; Close; Fail; htlc-index advance; channel closed; resolution "
